@@ -279,6 +279,11 @@ func (r *replica) runOn(w *world, raws [][]byte, tr *Rng) *abci.ResponseFinalize
 		defer func() { os.Stdout, os.Stderr = so, se }()
 	}
 	tc := r.cfg.Traffic
+	if tc.Historic && tr.Bool() {
+		// requests pinned to committed heights while the set-up's writes (governance-like parameter changes, ...) are
+		// not yet part of any committed version: readers on a state OLDER than the one the block will run on
+		w.historicTraffic(r, tr)
+	}
 	if r.cfg.CheckTx {
 		for i := range raws {
 			bz := raws[i]
